@@ -1005,6 +1005,15 @@ def stage_hybrid_spec(ctx, pq):
         ctx.case(case)
         ctx.correspondence("Coq hyb_enc (spec, proved round trip) ~ harness/nestedfile.hybrid bytes in the written files", case,
                            o.hex() if isinstance(o, (bytes, bytearray)) else repr(o), b.hex())
+    # and the spec DEcoder on the written bytes gives the levels back (instance of C15_page_payload_v1/_v2)
+    sub = picks[:150]
+    flat = [[v for r in runs for v in ([r[2]] * r[1] if r[0] == "rle" else r[1])] for (w, runs, b) in sub]
+    outs = pq.batch([("hyb_dec", True, w, len(f), b) for (w, runs, b), f in zip(sub, flat)])
+    for (w, runs, b), f, o in zip(sub, flat, outs):
+        case = {"stage": "hybrid-spec-dec", "width": w, "n": len(f), "bytes": b.hex()[:80]}
+        ctx.case(case)
+        ctx.correspondence("Coq hyb_dec (spec) on the written level bytes = the levels", case,
+                           [int(x) for x in o[0][0]] if o and o != [] else repr(o), f)
 
 
 def check_file_case(ctx, pq, w, case, path, conf_budget):
